@@ -33,6 +33,12 @@ def content(coding, n, off, seed):
         return (b'\x00\x00\x00\x00\x41' * (n // 5 + 1))[:n]
     if coding == 'prefixlike':  # bytes that spell a plausible 4-byte length
         return (b'\x00\x00\x00\x03abc\x00\x00\x03\xf4' * (n // 11 + 1))[:n]
+    if coding.startswith('byte'):      # records made of one byte value only: 'byte32' = all spaces ...
+        return bytes([int(coding[4:])]) * n
+    if coding == 'crlf':
+        return (b'\r\n' * (n // 2 + 1))[:n]
+    if coding == 'ws':
+        return (b' \t\n\r\x0b\x0c' * (n // 6 + 1))[:n]
     raise core.Broken(coding)
 
 
@@ -145,6 +151,16 @@ def tasks(tier, seed):
         ts.append({'kind': 'lists', 'lists': ch, 'seed': seed, 'tier': 'quick'})
     # (d) other configured maxima: records at the maximum must survive
     ts.append({'kind': 'maxcfg', 'seed': seed})
+    # (e) records made of ONE byte value (every value 0..255) or of whitespace bytes only
+    uni = []
+    for v in range(256):
+        for lens in ([1], [2], [5], [1012], [3000], [1, 1, 1], [4, 1008]):
+            uni.append({'lens': lens, 'coding': 'byte%d' % v})
+    for coding in ('crlf', 'ws'):
+        for lens in ([1], [2], [3], [6], [80], [1012], [2, 2], [80, 1, 80]):
+            uni.append({'lens': lens, 'coding': coding})
+    for ch in core.chunks(uni, 32):
+        ts.append({'kind': 'uniform', 'items': ch, 'seed': seed})
     return ts
 
 
@@ -169,6 +185,14 @@ def run_task(task):
                         if i == 0 and blocked and coding == 'pos':
                             acc.sample(case if len(lens) < 20 else dict(case, lens='%d x %d' % (len(lens), lens[0])))
                         check_case(case, acc)
+    elif task['kind'] == 'uniform':
+        for i, it in enumerate(task['items']):
+            for blocked in (False, True):
+                for api in APIS:
+                    case = {'lens': it['lens'], 'coding': it['coding'], 'blocked': blocked, 'api': api, 'seed': seed}
+                    if i == 0 and blocked and api == 'func':
+                        acc.sample(case)
+                    check_case(case, acc)
     elif task['kind'] == 'maxcfg':
         for mx in (10, 1012, 6000, 20000):
             for lens in ([mx], [mx - 1], [1, mx], [mx, mx]):
@@ -186,7 +210,9 @@ def describe(tier, seed):
                 'manager+write_many, vbs_list_to_bytes/vbs_bytes_to_list) x content codings (position code; 0x00; '
                 '0x40; 00000000 runs; length-prefix look-alikes); all ordered pairs over a %d-length '
                 'boundary alphabet and triples over a %d-length one%s; runs of 10/100/1000 small records, 12 x 6000; '
-                'MAX_VBS_RECORD_LENGTH in {10, 1012, 6000, 20000} with records at the maximum. Oracle: unblocked '
+                'MAX_VBS_RECORD_LENGTH in {10, 1012, 6000, 20000} with records at the maximum; records made of one byte '
+                'value only (every value 0..255, lengths 1, 2, 5, 1012, 3000 and short lists) or of whitespace bytes '
+                'only. Oracle: unblocked '
                 'bytes == reference framing exactly; blocked file well-formed with that stream as payload + 0x40 '
                 'fill; records read back equal. A case is distinct by (length list, coding, format, API).'
                 % (len(PAIR_ALPHABET), len(TRIPLE_ALPHABET),
